@@ -70,16 +70,15 @@ def iterative (cs : List Comp) : Bool :=
 /-- the next two domains are a listed double-transporter pair -/
 def dtPair (rest : List Comp) : Bool := doubleTransporterCases.contains ((rest.take 2).map (·.label))
 
-/-- the domain just added is the first or the second one after a carrier protein that was not the
+/-- the domain `back` places before the end of `pre` is a carrier protein that was not the
     module's first carrier protein -/
-def followsExtraCarrier (pre : List Comp) : Bool :=
-  match pre.reverse with
+def extraCarrierAt (pre : List Comp) (back : Nat) : Bool :=
+  match pre.reverse.drop back with
   | [] => false
-  | x :: p =>
-    (x.isCarrierProtein && p.any Comp.isCarrierProtein) ||
-    (match p with
-     | [] => false
-     | y :: q => y.isCarrierProtein && q.any Comp.isCarrierProtein)
+  | x :: p => x.isCarrierProtein && p.any Comp.isCarrierProtein
+
+/-- the domain that comes next is the first or the second one after such an extra carrier protein -/
+def followsExtraCarrier (pre : List Comp) : Bool := extraCarrierAt pre 0 || extraCarrierAt pre 1
 
 /-- NRPS and PKS starters/loaders are not mixed -/
 def noMix (pre : List Comp) (c : Comp) : Bool :=
